@@ -1,6 +1,10 @@
 package main
 
 import (
+	"go/token"
+	"sort"
+	"strings"
+
 	"golang.org/x/tools/go/ssa"
 )
 
@@ -179,4 +183,175 @@ func isRemovalAppend(call *ssa.Call) bool {
 		}
 	}
 	return same && s1.Low == nil && s1.High != nil && s2.Low != nil && s2.High == nil
+}
+
+// ---- additional necessary condition (third round of seeded changes; defect found by the sub-agent's reading) ----
+
+func init() {
+	reg := registry["C14"]
+	reg.Meta.Rules["C14.7"] = "the name hash has the structure of lookup3: blocks are mixed only while more than 12 bytes remain, the tail handles 1..12 bytes, zero remaining bytes return before the final mix, and the rotation amounts are 4,6,8,16,19,4 (mix) and 14,11,25,16,4,14,24 (final)"
+	reg.Rules = append(reg.Rules, c14lookup3)
+}
+
+// rotationOf: v is (x << k) | (x >> (32-k)) or bits.RotateLeft32(x, k): returns k.
+func rotationOf(v ssa.Value) (int64, bool) {
+	switch x := v.(type) {
+	case *ssa.BinOp:
+		if x.Op != token.OR {
+			return 0, false
+		}
+		l, ok1 := x.X.(*ssa.BinOp)
+		rr, ok2 := x.Y.(*ssa.BinOp)
+		if !ok1 || !ok2 {
+			return 0, false
+		}
+		if l.Op == token.SHR {
+			l, rr = rr, l
+		}
+		if l.Op != token.SHL || rr.Op != token.SHR || l.X != rr.X {
+			return 0, false
+		}
+		k, okk := constInt(l.Y)
+		m, okm := constInt(rr.Y)
+		if okk && okm && k+m == 32 {
+			return k, true
+		}
+	case *ssa.Call:
+		if f := x.Call.StaticCallee(); f != nil && f.Pkg != nil && f.Pkg.Pkg.Path() == "math/bits" && f.Name() == "RotateLeft32" {
+			if k, ok := constInt(x.Call.Args[1]); ok {
+				return ((k % 32) + 32) % 32, true
+			}
+		}
+	}
+	return 0, false
+}
+
+func c14lookup3(c *Ctx, r *Result) {
+	fn := c.Fn(r, "structures.jenkinsHash")
+	if fn == nil {
+		return
+	}
+	name := c.Name(fn)
+	// the block loop: header with an If; blocks of the loop
+	var hdr *ssa.BasicBlock
+	for _, b := range fn.Blocks {
+		for _, p := range b.Preds {
+			if b.Dominates(p) && hdr == nil {
+				hdr = b
+			}
+		}
+	}
+	if hdr == nil {
+		r.Viol("C14.7", name+"#block-loop", c.Pos(fn.Pos()), "no block loop found")
+		return
+	}
+	loop := naturalLoop(hdr)
+	// (a) continue condition: remaining bytes > 12, i.e. on the edge into the body  len - i - 13 >= 0
+	fb := c.FB(fn)
+	okLoop := false
+	if ifi, ok := hdr.Instrs[len(hdr.Instrs)-1].(*ssa.If); ok {
+		body := hdr.Succs[0]
+		if !loop[body] {
+			body = hdr.Succs[1]
+		}
+		facts := fb.edgeFacts(hdr, body)
+		var idx *ssa.Phi
+		for _, in := range hdr.Instrs {
+			if p, isPhi := in.(*ssa.Phi); isPhi && isIntType(p.Type()) {
+				idx = p
+			}
+		}
+		if idx != nil {
+			lenName := fb.lenOfOperand(fn.Params[0])
+			goal13 := lenName.add(fb.lin(idx), -1).add(linConst(13), -1) // len - i - 13 >= 0
+			goal14 := lenName.add(fb.lin(idx), -1).add(linConst(14), -1)
+			okLoop = fb.prove(goal13, facts, 3) && !fb.prove(goal14, facts, 3)
+		}
+		_ = ifi
+	}
+	r.Check(okLoop, "C14.7", name+"#blocks-mixed-only-while-more-than-12-bytes-remain", c.InstrPos(hdr.Instrs[len(hdr.Instrs)-1]), "the block loop continues exactly when len(name) - i > 12 (a trailing block of exactly 12 bytes belongs to the tail, as in lookup3)")
+	// (b) tail arms 1..12 and a zero arm that returns before the final mix
+	arms := map[int64]*ssa.BasicBlock{}
+	for _, b := range fn.Blocks {
+		if loop[b] {
+			continue
+		}
+		ifi, ok := b.Instrs[len(b.Instrs)-1].(*ssa.If)
+		if !ok {
+			continue
+		}
+		cmp, ok := ifi.Cond.(*ssa.BinOp)
+		if !ok || cmp.Op != token.EQL {
+			continue
+		}
+		if k, ok := constInt(cmp.Y); ok {
+			arms[k] = b.Succs[0]
+		}
+	}
+	missing := ""
+	for k := int64(1); k <= 12; k++ {
+		if arms[k] == nil {
+			missing += " " + itoa64(k)
+		}
+	}
+	r.Check(missing == "", "C14.7", name+"#tail-handles-1-to-12-bytes", c.Pos(fn.Pos()), "the tail switch has an arm for every remaining length 1..12 (missing:"+missing+")")
+	// rotations
+	var mixRot, finRot []int64
+	var zeroArmReturns bool
+	if z := arms[0]; z != nil {
+		if _, isRet := z.Instrs[len(z.Instrs)-1].(*ssa.Return); isRet {
+			hasRot := false
+			for _, in := range z.Instrs {
+				if v, isV := in.(ssa.Value); isV {
+					if _, ok := rotationOf(v); ok {
+						hasRot = true
+					}
+				}
+			}
+			zeroArmReturns = !hasRot
+		}
+	}
+	r.Check(zeroArmReturns, "C14.7", name+"#zero-remaining-returns-before-final-mix", c.Pos(fn.Pos()), "zero remaining bytes (the empty name) return c without the final mix")
+	order := map[*ssa.BasicBlock]int{}
+	for i, b := range fn.DomPreorder() {
+		order[b] = i
+	}
+	blocks := append([]*ssa.BasicBlock{}, fn.Blocks...)
+	sort.Slice(blocks, func(i, j int) bool { return order[blocks[i]] < order[blocks[j]] })
+	for _, b := range blocks {
+		for _, in := range b.Instrs {
+			v, isV := in.(ssa.Value)
+			if !isV {
+				continue
+			}
+			if k, ok := rotationOf(v); ok {
+				if loop[b] {
+					mixRot = append(mixRot, k)
+				} else {
+					finRot = append(finRot, k)
+				}
+			}
+		}
+	}
+	eq := func(a []int64, b []int64) bool {
+		if len(a) != len(b) {
+			return false
+		}
+		for i := range a {
+			if a[i] != b[i] {
+				return false
+			}
+		}
+		return true
+	}
+	str := func(a []int64) string {
+		var s []string
+		for _, x := range a {
+			s = append(s, itoa64(x))
+		}
+		return strings.Join(s, ",")
+	}
+	r.Check(eq(mixRot, []int64{4, 6, 8, 16, 19, 4}), "C14.7", name+"#mix-rotations", c.Pos(fn.Pos()), "block mix rotates by "+str(mixRot)+" (lookup3: 4,6,8,16,19,4)")
+	r.Check(eq(finRot, []int64{14, 11, 25, 16, 4, 14, 24}), "C14.7", name+"#final-rotations", c.Pos(fn.Pos()), "final mix rotates by "+str(finRot)+" (lookup3: 14,11,25,16,4,14,24)")
+	r.Floor("C14.7", 5)
 }
